@@ -46,7 +46,7 @@ Lemma report_via : forall ign a b r path res ty ref, compare_db ign a b = Some r
   reports0 (compare_db_t ign a b) path res ty ref -> reports r path res ty ref.
 Proof. intros ign a b r path res ty ref H Hr H0. apply compare_db_some in H. subst r. apply reports_propagate; assumption. Qed.
 
-Lemma in_db_frame : forall ign a b f1 f2, In f1 (m_frames a) -> partner f1 b = Some f2 ->
+Lemma in_db_frame : forall ign a b f1 f2, In f1 (m_frames a) -> partner a b f1 = Some f2 ->
   In (compare_frame_t ign f1 f2) (db_kids ign a b).
 Proof.
   intros ign a b f1 f2 H1 H2. unfold db_kids. apply in_or_app. left. apply in_map_iff. exists f1.
@@ -61,14 +61,14 @@ Proof.
 Qed.
 
 (* a leaf directly below a frame / signal / ECU node *)
-Lemma frame_leaf : forall ign a b f1 f2 x, In f1 (m_frames a) -> partner f1 b = Some f2 ->
+Lemma frame_leaf : forall ign a b f1 f2 x, In f1 (m_frames a) -> partner a b f1 = Some f2 ->
   In x (frame_kids ign f1 f2) ->
   forall res ty ref, x = Node res ty ref [] -> reports0 (compare_db_t ign a b) [(TFRAME, fr_name f1)] res ty ref.
 Proof.
   intros ign a b f1 f2 x H1 H2 Hx res ty ref E. subst x. cbn. exists (compare_frame_t ign f1 f2).
   split; [apply in_db_frame; assumption|]. repeat split. exact Hx.
 Qed.
-Lemma frame_sub : forall ign a b f1 f2 c, In f1 (m_frames a) -> partner f1 b = Some f2 ->
+Lemma frame_sub : forall ign a b f1 f2 c, In f1 (m_frames a) -> partner a b f1 = Some f2 ->
   In c (frame_kids ign f1 f2) ->
   forall rest res ty ref, reports0 c rest res ty ref ->
   reports0 (compare_db_t ign a b) ((TFRAME, fr_name f1) :: (type_of c, ref_of c) :: rest) res ty ref.
@@ -77,8 +77,8 @@ Proof.
   split; [apply in_db_frame; assumption|]. repeat split. exists c. repeat split; assumption.
 Qed.
 
-Lemma by_name_partner : forall f1 b f2, frame_by_name (fr_name f1) b = Some f2 -> partner f1 b = Some f2.
-Proof. intros f1 b f2 H. unfold partner. rewrite H. reflexivity. Qed.
+Lemma by_name_partner : forall a f1 b f2, frame_by_name (fr_name f1) b = Some f2 -> partner a b f1 = Some f2.
+Proof. intros a f1 b f2 H. unfold partner. rewrite H. reflexivity. Qed.
 
 (* ------------------------------------------------------------------ dict-valued properties *)
 Lemma dict_lift : forall {A} (t c : cres) (path : list (ctype * Z)) (d1 d2 : list (Z * A))
@@ -136,7 +136,7 @@ Ltac kid_by := cbv zeta; rewrite !in_app_iff; tauto.
 Ltac splits n := match n with O => idtac | S ?k => split; [|splits k] end.
 
 (* ------------------------------------------------------------------ signals *)
-Lemma signal_node : forall ign a b f1 f2 s1 s2, In f1 (m_frames a) -> partner f1 b = Some f2 ->
+Lemma signal_node : forall ign a b f1 f2 s1 s2, In f1 (m_frames a) -> partner a b f1 = Some f2 ->
   In s1 (fr_signals f1) -> signal_by_name (sg_name s1) f2 = Some s2 ->
   forall rest res ty ref, reports0 (compare_signal_t ign s1 s2) rest res ty ref ->
   reports0 (compare_db_t ign a b) ((TFRAME, fr_name f1) :: (TSIGNAL, sg_name s1) :: rest) res ty ref.
@@ -169,7 +169,7 @@ Lemma signal_edit_reported : forall ign a b r f1 f2 s1 s2,
 Proof.
   intros ign a b r f1 f2 s1 s2 Wb H Hf1 Hf2 En Hs1 Hs2 Esn P n. subst P n.
   destruct Wb as [Nfb [_ [Ffb _]]].
-  assert (Hp : partner f1 b = Some f2).
+  assert (Hp : partner a b f1 = Some f2).
   { apply by_name_partner. unfold frame_by_name. rewrite <- En. apply find_name_nodup; assumption. }
   rewrite Forall_forall in Ffb. destruct (Ffb f2 Hf2) as [[Ns2 _] [_ Ds2]].
   assert (Hsn : signal_by_name (sg_name s1) f2 = Some s2).
@@ -263,7 +263,7 @@ Lemma frame_edit_reported : forall ign a b r f1 f2,
 Proof.
   intros ign a b r f1 f2 Wb H Hf1 Hf2 En P n. subst P n.
   destruct Wb as [Nfb [_ [Ffb _]]].
-  assert (Hp : partner f1 b = Some f2).
+  assert (Hp : partner a b f1 = Some f2).
   { apply by_name_partner. unfold frame_by_name. rewrite <- En. apply find_name_nodup; assumption. }
   rewrite Forall_forall in Ffb. destruct (Ffb f2 Hf2) as [[Ns2 Ng2] [Na2 _]].
   assert (L : forall res ty ref, is_equal res = false -> In (Node res ty ref []) (frame_kids ign f1 f2) ->
@@ -345,32 +345,84 @@ Proof.
     replace (arb f) with (arb g) by (unfold arb; congruence). apply in_map. exact Hg.
 Qed.
 
-Lemma frame_set_edit_reported : forall ign a b r, compare_db ign a b = Some r ->
-  (forall f1, In f1 (m_frames a) -> ~ In (fr_name f1) (map fr_name (m_frames b)) -> ~ In (arb f1) (map arb (m_frames b)) ->
-     reports r [] RDeleted TFRAME (fr_name f1)) /\
-  (forall f2, In f2 (m_frames b) -> ~ In (fr_name f2) (map fr_name (m_frames a)) -> ~ In (arb f2) (map arb (m_frames a)) ->
-     reports r [] RAdded TFRAME (fr_name f2)) /\
-  (forall f1, In f1 (m_frames a) -> ~ In (fr_name f1) (map fr_name (m_frames b)) -> In (arb f1) (map arb (m_frames b)) ->
-     reports r [(TFRAME, fr_name f1)] RChanged TName (fr_name f1)).
+Lemma frame_by_id_unique : forall f g m, ids_unique m -> In g (m_frames m) -> arb g = arb f -> frame_by_id f m = Some g.
+Proof.
+  intros f g m U Hg Ea. unfold frame_by_id, ids_unique in *.
+  induction (m_frames m) as [|z l IH]; [contradiction|]. cbn in U. inversion U as [|? ? Hnot U']. subst. cbn [find].
+  destruct (arb_eqb z f) eqn:E.
+  - destruct Hg as [Hg|Hg]; [congruence|]. exfalso. apply Hnot.
+    unfold arb_eqb in E. apply andb_true_iff in E. destruct E as [A1 A2]. apply Z.eqb_eq in A1. apply (proj1 (booleqb_eq _ _)) in A2.
+    replace (arb z) with (arb g) by (rewrite Ea; unfold arb; congruence). apply in_map. exact Hg.
+  - destruct Hg as [Hg|Hg]; [|apply IH; assumption]. subst z. exfalso.
+    unfold arb_eqb, arb in *. inversion Ea as [[E1 E2]]. rewrite E1, E2, Z.eqb_refl in E. destruct (fr_ext f); discriminate.
+Qed.
+Lemma frame_by_id_some : forall f g m, frame_by_id f m = Some g -> In g (m_frames m) /\ arb g = arb f.
+Proof.
+  intros f g m H. unfold frame_by_id in H. apply find_some in H. destruct H as [Hg Ha]. split; [exact Hg|].
+  unfold arb_eqb in Ha. apply andb_true_iff in Ha. destruct Ha as [A1 A2]. apply Z.eqb_eq in A1. apply (proj1 (booleqb_eq _ _)) in A2.
+  unfold arb. congruence.
+Qed.
+
+(* a frame that the pairing rule leaves alone *)
+Lemma unpaired_partner_none : forall a b f1, In f1 (m_frames a) -> (forall f2, ~ paired a b f1 f2) -> partner a b f1 = None.
+Proof.
+  intros a b f1 H1 Hun. unfold partner.
+  destruct (frame_by_name (fr_name f1) b) as [g|] eqn:En.
+  - exfalso. unfold frame_by_name in En. apply find_name_some in En. destruct En as [Hg Eg].
+    apply (Hun g). split; [exact H1|]. split; [exact Hg|]. left. congruence.
+  - destruct (frame_by_id f1 b) as [g|] eqn:Ei; [|reflexivity].
+    destruct (frame_by_name (fr_name g) a) as [h|] eqn:Eg; [reflexivity|]. exfalso.
+    apply frame_by_id_some in Ei. destruct Ei as [Hg Ea]. apply (Hun g). split; [exact H1|]. split; [exact Hg|]. right.
+    unfold frame_by_name in En, Eg. apply (find_name_none fr_name) in En. apply (find_name_none fr_name) in Eg. repeat split; auto.
+Qed.
+Lemma paired_sym : forall a b f1 f2, paired a b f1 f2 -> paired b a f2 f1.
+Proof.
+  intros a b f1 f2 [H1 [H2 Hr]]. split; [exact H2|]. split; [exact H1|].
+  destruct Hr as [E|[N1 [N2 E]]]; [left; congruence | right; repeat split; auto].
+Qed.
+
+Lemma frames_reported : forall ign a b r, compare_db ign a b = Some r ->
+  (forall f1, In f1 (m_frames a) -> (forall f2, ~ paired a b f1 f2) -> reports r [] RDeleted TFRAME (fr_name f1)) /\
+  (forall f2, In f2 (m_frames b) -> (forall f1, ~ paired a b f1 f2) -> reports r [] RAdded TFRAME (fr_name f2)) /\
+  (NoDup (map fr_name (m_frames b)) -> ids_unique b ->
+   forall f1 f2, paired a b f1 f2 ->
+     exists cf, compare_frame ign f1 f2 = Some cf /\ In (propagate cf) (kids_of r) /\
+                type_of cf = TFRAME /\ ref_of cf = fr_name f1 /\
+                (fr_name f1 <> fr_name f2 -> reports r [(TFRAME, fr_name f1)] RChanged TName (fr_name f1))).
 Proof.
   intros ign a b r H. splits 2%nat.
-  - intros f1 Hf Hn Hi. eapply report_via; [exact H | reflexivity|]. cbn [reports0 compare_db_t kids_of].
+  - intros f1 Hf Hun. eapply report_via; [exact H | reflexivity|]. cbn [reports0 compare_db_t kids_of].
     unfold db_kids. apply in_or_app. left. apply in_map_iff. exists f1. split; [|exact Hf].
-    unfold partner, frame_by_name. apply (find_name_none fr_name) in Hn. rewrite Hn.
-    apply frame_by_id_none in Hi. rewrite Hi. reflexivity.
-  - intros f2 Hf Hn Hi. eapply report_via; [exact H | reflexivity|]. cbn [reports0 compare_db_t kids_of].
+    rewrite (unpaired_partner_none a b f1 Hf Hun). reflexivity.
+  - intros f2 Hf Hun. eapply report_via; [exact H | reflexivity|]. cbn [reports0 compare_db_t kids_of].
     unfold db_kids. apply in_or_app. right. apply in_or_app. left. apply in_flat_map. exists f2. split; [exact Hf|].
-    unfold partner, frame_by_name. apply (find_name_none fr_name) in Hn. rewrite Hn.
-    apply frame_by_id_none in Hi. rewrite Hi. left. reflexivity.
-  - intros f1 Hf Hn Hi.
-    destruct (frame_by_id f1 b) as [f2|] eqn:E; [|apply frame_by_id_none in E; contradiction].
-    assert (Hp : partner f1 b = Some f2).
-    { unfold partner, frame_by_name. apply (find_name_none fr_name) in Hn. rewrite Hn. exact E. }
-    eapply report_via; [exact H | reflexivity|].
-    eapply frame_leaf; [exact Hf | exact Hp | | reflexivity].
-    assert (D : (fr_name f1 =? fr_name f2) = false).
-    { apply Z.eqb_neq. intro E2. apply Hn. rewrite E2. apply in_map. unfold frame_by_id in E. apply find_some in E. apply E. }
-    pose proof (chgl_in _ TName (fr_name f1) D). unfold frame_kids. kid_by.
+    rewrite (unpaired_partner_none b a f2 Hf); [left; reflexivity|].
+    intros f1 Hp. apply (Hun f1). apply paired_sym. exact Hp.
+  - intros Nb Ub f1 f2 [H1 [H2 Hrel]].
+    assert (Hp : partner a b f1 = Some f2).
+    { unfold partner. destruct Hrel as [En|[N1 [N2 Ea]]].
+      - unfold frame_by_name. rewrite En. rewrite (find_name_nodup fr_name _ f2 Nb H2). reflexivity.
+      - unfold frame_by_name. apply (find_name_none fr_name) in N1. rewrite N1.
+        rewrite (frame_by_id_unique f1 f2 b Ub H2 (eq_sym Ea)).
+        apply (find_name_none fr_name) in N2. rewrite N2. reflexivity. }
+    (* the answer of compare_frame exists because compare_db answered *)
+    assert (Hcf : compare_frame ign f1 f2 = Some (compare_frame_t ign f1 f2)).
+    { unfold compare_db in H. destruct (compare_db_raw ign a b) as [t|] eqn:Er; [|discriminate].
+      unfold compare_db_raw in Er. destruct (sequence _) as [ks|] eqn:Es; [|discriminate].
+      pose proof (sequence_map_some_each _ _ _ Es f1 H1) as Hne. cbn beta in Hne.
+      assert (Hx : compare_frame ign f1 f2 <> None).
+      { unfold partner in Hp. destruct (frame_by_name (fr_name f1) b) as [g|].
+        - inversion Hp. subst. exact Hne.
+        - destruct (frame_by_id f1 b) as [g|]; [|discriminate].
+          destruct (frame_by_name (fr_name g) a); [discriminate|]. inversion Hp. subst. exact Hne. }
+      destruct (compare_frame ign f1 f2) as [cf|] eqn:Ec; [|congruence].
+      apply compare_frame_some in Ec. subst. reflexivity. }
+    exists (compare_frame_t ign f1 f2). split; [exact Hcf|].
+    pose proof (compare_db_some _ _ _ _ H) as Er. subst r. rewrite kids_of_propagate. cbn [kids_of compare_db_t].
+    split; [apply in_map; apply in_db_frame; assumption|]. split; [reflexivity|]. split; [reflexivity|].
+    intro D. apply reports_propagate; [reflexivity|].
+    eapply frame_leaf; [exact H1 | exact Hp | | reflexivity].
+    apply Z.eqb_neq in D. pose proof (chgl_in _ TName (fr_name f1) D). unfold frame_kids. kid_by.
 Qed.
 
 (* ------------------------------------------------------------------ ECUs *)
